@@ -37,6 +37,8 @@ pub struct Knobs {
     pub digits: bool,
     /// with css_attrs: only class attributes (no style/color/bgcolor attributes)
     pub classes_only: bool,
+    /// link targets with wide (CJK) and combining characters, of various lengths (the footnote list wraps them)
+    pub exotic_hrefs: bool,
 }
 
 impl Knobs {
@@ -69,6 +71,7 @@ impl Knobs {
             hidden_elems: false,
             digits: true,
             classes_only: false,
+            exotic_hrefs: false,
         }
     }
     pub fn no_css(mut self) -> Knobs {
@@ -228,7 +231,14 @@ impl<'a> Gen<'a> {
                     } else {
                         String::new()
                     };
-                    if self.k.href_digits {
+                    if self.k.exotic_hrefs && self.r.p(60) {
+                        // wide and zero-width characters at every offset parity, short and long
+                        let mut h = String::from(*self.r.pick(&[&"http://", &"/", &"x", &""]));
+                        for _ in 0..1 + self.r.b(14) {
+                            h.push_str(self.r.pick(&["例", "え", "日本語", "a", "bc", "/", "e\u{301}", ".jp", "ページ", "x", "-", "字"]));
+                        }
+                        out.push_str(&format!("<a href=\"{h}\"{ida}{nm}>"));
+                    } else if self.k.href_digits {
                         out.push_str(&format!("<a href=\"/{}/\"{ida}{nm}>", self.r.b(9)));
                     } else {
                         out.push_str(&format!("<a href=\"http://u{}/\"{ida}{nm}>", self.r.b(9)));
